@@ -859,6 +859,9 @@ func RaceBody(env *Env, name string, iterations int) (finished int, stuck int, e
 		}
 		if !ok {
 			stuck++
+			if stuck >= 3 {
+				break // a scenario that deadlocks free-running (D11) costs 20 s per iteration and tells the race detector nothing new
+			}
 			continue // leaked on purpose; the deadlock itself is the scheduler's business
 		}
 		for _, h := range st.Handles {
